@@ -37,7 +37,7 @@ Lemma cvptr_S f d toks : cvptr (S f) d toks =
 Proof. reflexivity. Qed.
 
 Lemma arrtype_S f d lb toks : arrtype (S f) d lb toks =
-  if is_ref d then DErr 3
+  if is_ref d then DErr 1
   else
     lift (consume kty [RB] [lb] toks) (fun grp r' =>
       let size := middle grp in
